@@ -83,8 +83,15 @@ def check_lat(case):
         terms += [('u', 'u', jac * I0, 0, 0, 0, 0), ('v', 'v', jac * I0, 0, 0, 0, 0), ('u', 'w', jac * I1 * 2 / a, 0, 1, 0, 0),
                   ('w', 'u', jac * I1 * 2 / a, 1, 0, 0, 0), ('v', 'w', jac * I1 * 2 / b, 0, 0, 0, 1), ('w', 'v', jac * I1 * 2 / b, 0, 0, 1, 0)]
     S = pan.rp.embed(ref.scale_of(terms), size, r0, c0)
-    ratio, idx = pan.worst(got, exp, S, RTOL)
-    if ratio > 1:
+    tru = (lambda A: A) if cfg['finalize'] else np.triu
+
+    def build_for(cs):
+        def build(rv):
+            return tru(pan.rp.embed(rv.kM(mu, h, d, cs), size, r0, c0)), tru(pan.rp.embed(rv.scale_of(terms), size, r0, c0))
+        return build
+    status, ratio, idx, info = pan.tiered(ref, got, exp, tru(S), RTOL, build_for(-1.0))
+    table_finding = False
+    if status == 'violation' and not info:
         sig = None
         Kk = pan.rp.embed(ref.kM(mu, h, d, +1.0), size, r0, c0)
         if d != 0 and pan.worst(got, Kk if cfg['finalize'] else np.triu(Kk), S, RTOL)[0] <= 1:
@@ -92,6 +99,14 @@ def check_lat(case):
         fails.append(fail('calc_kM differs from the kinetic-energy Hessian of (u - z w,x, v - z w,y, w)' +
                           (' (explained by coupling terms with the sign of u + z w,x)' if sig else ''), sig=sig, cfg=cfg, index=idx,
                           got=float(got[idx]), expected=float(exp[idx])))
+        if sig:          # classify the remaining deviation against the sign-adjusted reference
+            status, ratio2, idx, info = pan.tiered(ref, got, tru(Kk), tru(S), RTOL, build_for(+1.0))
+    if status == 'known':
+        table_finding = True
+        fails.append(fail('calc_kM differs from the kinetic-energy Hessian by more than 1e-9 of the natural entry scale (explained by the '
+                          'sub-interval integral tables alone)', sig=pan.SIG_TABLES, cfg=cfg, index=idx, **info))
+    elif status == 'violation' and info:
+        fails.append(fail('calc_kM: ' + info['kind'], sig=None, cfg=cfg, index=idx, **{k: v for k, v in info.items() if k != 'kind'}))
     mask = np.zeros((size, size), dtype=bool)
     mask[r0:r0 + nloc, c0:c0 + nloc] = True
     if np.any(K[~mask] != 0):
@@ -108,7 +123,7 @@ def check_lat(case):
             strict = cfg['sub'] == 'none' and max(cfg['m'], cfg['n']) <= 8 and cfg['model'] != 'kpanel'
             Sl = S[r0:r0 + nloc, c0:c0 + nloc][np.ix_(act, act)]
             pd_tol = 1e-9 + np.linalg.norm(RTOL * Sl / np.outer(dd, dd))      # eigenvalue perturbation allowed by the entry-wise tolerance
-            if w.min() < -pd_tol or (strict and w.min() <= 1e-12):
+            if not table_finding and (w.min() < -pd_tol or (strict and w.min() <= 1e-12)):
                 fails.append(fail('kM not positive definite on the active amplitudes', sig=None, cfg=cfg, min_eig_scaled=float(w.min())))
         # rigid translation of an unrestrained flat panel: c^T M c = mu h area(sub-interval)
         fl = pan.flags_of(cfg)
